@@ -538,6 +538,27 @@ fn gen_world(rng: &mut Rng, ix: usize) -> (Vec<Vec<u8>>, Vec<Node>) {
             nodes.push(Node { p, k: "f".into(), id });
         }
     }
+    // one file per extension of the MIME table (and two multi-dot names ending in one) in every second world: every file of
+    // a world is requested by its path, so each table entry is looked up through the real handlers (added after the seeded
+    // change `C06-r5-mimetype-...` - a binary search over a table with two entries out of order - was missed: the random
+    // worlds only had txt/css/png/json/html/js names, the per-extension files lived in the model-checked world W1 only)
+    if ix % 2 == 1 {
+        let mut m = root.clone();
+        m.push(b"mime".to_vec());
+        nodes.push(Node { p: m.clone(), k: "d".into(), id: 0 });
+        let exts = ["css", "html", "htm", "js", "mjs", "txt", "bmp", "gif", "jpeg", "jpg", "png", "webp", "svg", "ico", "json", "pdf", "zip",
+            "mp4", "ogv", "webm", "ttf", "otf", "woff", "woff2"];
+        for (k, e) in exts.iter().enumerate() {
+            let mut p = m.clone();
+            p.push(format!("f.{}", e).into_bytes());
+            nodes.push(Node { p, k: "f".into(), id: 6000 + k as i64 });
+            if k % 6 == (ix / 2) % 6 {
+                let mut p = m.clone();
+                p.push(format!("a.b.min.{}", e).into_bytes());
+                nodes.push(Node { p, k: "f".into(), id: 6100 + k as i64 });
+            }
+        }
+    }
     let mut next_id = 1 + (ix as i64 % 7);
     // breadth-first random tree, depth <= 3
     let mut frontier: Vec<(Vec<Vec<u8>>, usize)> = vec![(root.clone(), 0)];
